@@ -205,6 +205,38 @@ def h_loss(trigger, who, mode, second=None):
     return ['loss', count]
 
 
+def h_late(t1, who, t2):
+    """X starts an exchange, Y answers it and THEN starts one of its own: the answer and Y's request are both in flight to X and arrive
+    in order / swapped / with the first or the second lost / with the first duplicated (arbitrary choice); then the lossless drain"""
+    from symx import core
+    eng = core.engine()
+    sim = Sim()
+    X, Y = who, sim.other(who)
+    sim.trigger(t1, X)
+    while sim.queue[Y]:
+        sim.net_op('deliver', Y)
+    sim.trigger(t2, Y)
+    c = eng.sym_int('arrival', 0, 4)
+    j = eng.concretize(c, 0, 4) if not isinstance(c, int) else c
+    q = sim.queue[X]
+    what = ('in order', 'swapped', 'first lost', 'second lost', 'first duplicated')[j]
+    if j == 1 and len(q) >= 2:
+        q[0], q[1] = q[1], q[0]
+    elif j == 2 and q:
+        q.pop(0)
+    elif j == 3 and len(q) >= 2:
+        q.pop(1)
+    elif j == 4 and q:
+        q.insert(1, q[0])
+    if sim.errors:
+        return {'class': ['late'], 'violation': f'{t1}@{X}, answered, {t2}@{Y}: ' + '; '.join(sim.errors)}
+    rounds = sim.drain()
+    bad = sim.consistent()
+    if bad:
+        return {'class': ['late'], 'violation': f'{t1}@{X} answered by {Y}, then {t2}@{Y}; arrival at {X}: {what}; after the drain ({rounds} rounds): ' + '; '.join(bad[:3])}
+    return ['late', j]
+
+
 # ----------------------------------------------------------------------------- (a) local one-step rules
 WAITING = ('INIT_REQ_SENT', 'AUTH_REQ_SENT', 'NEW_CHILD_REQ_SENT', 'REK_CHILD_REQ_SENT', 'REK_IKE_SA_REQ_SENT', 'DEL_CHILD_REQ_SENT',
            'DEL_IKE_SA_REQ_SENT', 'DEL_AFTER_REKEY_IKE_SA_REQ_SENT', 'DPD_REQ_SENT')
@@ -297,6 +329,11 @@ def build_instances(tier):
         for mode in (('drop',) if tier == 'quick' else ('drop', 'dup')):
             inst.append(Instance(f'crossing {t}@A x {t2}@B one datagram {mode}', h_loss, (t, 'A', mode, t2), native=nat(h_loss),
                                  engine_kw={'max_ticks': 10 ** 7}))
+    for t1 in TRIGGERS:
+        for t2 in TRIGGERS:
+            for w in (('A',) if tier == 'quick' and (t1 in ('dpd', 'acquire') or t2 in ('dpd',)) else ('A', 'B')):
+                inst.append(Instance(f'answered {t1}@{w} then {t2} at the peer, arrival order arbitrary', h_late, (t1, w, t2), native=nat(h_late),
+                                     engine_kw={'max_ticks': 10 ** 7}))
     for who, states in (('A', world.ALL_STATES_A), ('B', world.ALL_STATES_B)):
         for st in states:
             if st in ('INIT_REQ_SENT', 'AUTH_REQ_SENT', 'INIT_RES_SENT', 'REKEYED', 'DEL_AFTER_REKEY_IKE_SA_REQ_SENT'):
